@@ -17,7 +17,7 @@ import (
 func init() {
 	Register(&Spec{
 		ID:           "C13",
-		Explanation:  "Decides four structural clauses of the packed codec in internal/packed: (R1) in the one-shot decoder, the count returned by a copy from the remaining input into a destination sized from an input byte reaches a comparison (a short literal run is detected, as io.ReadFull does in the streaming sibling); (R2) the number of words passed to allocWords is the constant 1 or a single input byte, and Reader.zeroes/literal are set only from a single byte or decremented: output grows by at most 255 words per count byte; (R3) Pack, Unpack and Reader.ReadWord all dispatch on exactly the tags 0x00 and 0xff, and each place where a count byte or a tagged byte is missing yields (or latches) io.ErrUnexpectedEOF; (R4) every index into the input in Unpack and ReadWord is bounded by an interval analysis of the index against a dominating length test; (R1) also requires the copy count to be compared with a byte extent of the destination; (R3e) in the streaming decoder the error of every byte read after the tag byte is latched or returned only where it is known not to be io.EOF; (R5) every integer converted to a count byte in Pack has an upper bound of at most 255 (bounds through min, loop counters and division); (R7) allocWords hands out a fresh make or the caller's slice re-sliced after a loop that zeroes exactly the spare capacity it exposes (Unpack writes nothing for zero bytes). Does NOT decide unpack(pack(x)) = x, run-length limits as values, or equivalence of the two decoders.",
+		Explanation:  "Decides four structural clauses of the packed codec in internal/packed: (R1) in the one-shot decoder, the count returned by a copy from the remaining input into a destination sized from an input byte reaches a comparison (a short literal run is detected, as io.ReadFull does in the streaming sibling); (R2) the number of words passed to allocWords is the constant 1 or a single input byte, and Reader.zeroes/literal are set only from a single byte or decremented: output grows by at most 255 words per count byte; (R3) Pack, Unpack and Reader.ReadWord all dispatch on exactly the tags 0x00 and 0xff, and each place where a count byte or a tagged byte is missing yields (or latches) io.ErrUnexpectedEOF; (R4) every index into the input in Unpack and ReadWord is bounded by an interval analysis of the index against a dominating length test; (R1) also requires the copy count to be compared with a byte extent of the destination; (R3e) in the streaming decoder the error of every byte read after the tag byte is latched or returned only where it is known not to be io.EOF; (R5) every integer converted to a count byte in Pack has an upper bound of at most 255 (bounds through min, loop counters and division); (R7) allocWords hands out a fresh make or the caller's slice re-sliced after a loop that zeroes exactly the spare capacity it exposes (Unpack writes nothing for zero bytes). (R8) UnmarshalPacked decodes the unpacked bytes only under a nil error of Unpack. Does NOT decide unpack(pack(x)) = x, run-length limits as values, or equivalence of the two decoders.",
 		ExtraConfigs: true,
 		Run:          runC13,
 	})
@@ -32,6 +32,7 @@ func runC13(ctx *Ctx) {
 	ruleCountByteEOF(ctx, "C13-R3e")
 	rulePackNoAlias(ctx, "C13-R6")
 	ruleAllocWordsZero(ctx, "C13-R7")
+	ruleAnchorSpecs(ctx, "C13-R8", unpackErrorSpecs)
 	r := ctx.Rep
 	r.Floor("C13-R7", 1)
 	r.Floor("C13-R5", 2)
